@@ -292,13 +292,33 @@ def run(F, res, tier):
             res.ob("S2", "%s/%s/%d" % (f.path.rsplit("ExprScopes::", 1)[-1], c.rsplit("::", 1)[-1], ordn),
                    "this visit runs in the current scope, or in a fresh scope nested directly in it", ok, where=where, how=why)
     res.floor("recursive visits in traverse_expr", n, 17)
-    # clause scope allocated inside the per-clause closure (one scope per clause), lambda scope in the Lambda arm
-    clause_clos = [f for f in fs if f.kind == "Closure" and any(is_scope_alloc(F, t) for b, t in f.calls())]
-    res.ob("S2", "one-scope-per-clause", "the scope of a case clause is allocated inside the per-clause closure (each clause gets its own scope)",
-           len(clause_clos) >= 1, where=te.loc(), how="closures of traverse_expr that allocate a scope: %d" % len(clause_clos))
-    allocs_in_fn = [b for b, t in te.calls() if is_scope_alloc(F, t)]
-    res.ob("S2", "lambda-scope", "a lambda body gets a scope of its own, allocated in traverse_expr's Lambda arm", len(allocs_in_fn) == 1, where=te.loc(),
-           how="scope allocations directly in traverse_expr: %d" % len(allocs_in_fn))
+    # one scope per case clause (allocated in the per-clause closure, or in the loop over the clauses), one per lambda
+    EXPR = "ide::def::module::Expr"
+    de = FL.Defs(te)
+    b0e, te_sw = match_on(te, de, EXPR)
+    okc = okl = False
+    why_c = why_l = "match on Expr not found"
+    if te_sw is not None:
+        edm = {n_: v for v, n_ in F.discr_map(EXPR).items()}
+        tg, reach = regions(te, te_sw, avoid=b0e)
+        common = set.intersection(*reach.values()) if len(reach) > 1 else set()
+        loops = [te.natural_loop(tl, hd) for tl, hd in te.back_edges()]
+
+        def arm(name):
+            x = tg.get(edm.get(name))
+            return (reach[x] - common) if x is not None else set()
+        case_arm, lam_arm = arm("Case"), arm("Lambda")
+        # closures created in the Case arm that allocate
+        clause_clos = [f for f in fs if f.kind == "Closure" and any(is_scope_alloc(F, t) for b, t in f.calls())]
+        in_loop = [b for b, t in te.calls() if b in case_arm and is_scope_alloc(F, t) and any(b in body and body <= (case_arm | common) or b in body for body in loops)]
+        okc = bool(clause_clos) or bool(in_loop)
+        why_c = "allocating closures: %d, allocations inside a loop of the Case arm: %d" % (len(clause_clos), len(in_loop))
+        lam_allocs = [b for b, t in te.calls() if b in lam_arm and is_scope_alloc(F, t) and not any(b in body for body in loops)]
+        okl = len(lam_allocs) == 1
+        why_l = "scope allocations in the Lambda arm (outside loops): %d" % len(lam_allocs)
+    res.ob("S2", "one-scope-per-clause", "the scope of a case clause is allocated once per clause (inside the per-clause closure or the loop over the clauses)",
+           okc, where=te.loc(), how=why_c)
+    res.ob("S2", "lambda-scope", "a lambda body gets a scope of its own, allocated in traverse_expr's Lambda arm", okl, where=te.loc(), how=why_l)
     # ---- S3
     ts = F.fn(SC + "traverse_expr_stmts")
     d = FL.Defs(ts)
@@ -505,7 +525,12 @@ def qualifier_first(F, res):
     def closure_calls(op):
         o = d.origin_op(op)
         if o.get("k") == "agg" and "closure" in o["rv"] and o["rv"]["closure"] in F.fns:
-            return [FL.short(callee(t) or callee_def(t)) for b, t in F.fns[o["rv"]["closure"]].calls()]
+            # the closure body, and helpers of this module it delegates to
+            out = []
+            for p_ in F.with_helpers(o["rv"]["closure"], depth=1):
+                if p_.startswith("ide::def::semantics::") and p_ != f.path:
+                    out += [FL.short(callee(t) or callee_def(t)) for b, t in F.fns[p_].calls()]
+            return out
         return []
     first, fallback = None, None
     for b, t in f.calls():
@@ -532,18 +557,9 @@ def qualified_value_kinds(F, res, rule="S6"):
     """S6: `module.name` resolves for every kind of module-level value. The kinds are read from Resolver::resolve_name
     (the ResolveResult variants it builds from the module scope's own values); the arm of each in the qualified-access
     match of the inferencer must record a field resolution (what classify_node / go-to-definition later reads)."""
-    rn = F.fn("ide::def::resolver::Resolver::resolve_name")
-    drn = FL.Defs(rn)
-    loc = [b for b, t in rn.calls() if FL.short(callee(t) or callee_def(t)) == "ModuleScope::resolve_name_locally"]
     kinds = set()
-    if loc:
-        for b, i, s in rn.stmts():
-            rv = s.get("rv")
-            if rv and rv["k"] == "agg" and rv.get("adt") == RR and rn.can_reach(loc[0], [b]) and b != loc[0]:
-                # built after the module-scope lookup and before the built-in fallback
-                bi = [bb for bb, t in rn.calls() if FL.short(callee(t) or callee_def(t)) == "BuiltIn::values"]
-                if not any(rn.dominates(x, b) for x in bi):
-                    kinds.add(rv["variant"])
+    for vs in _arm_map(F, "ide::def::resolver::Resolver::resolve_name", RR).values():
+        kinds |= vs
     res.floor("module-level value kinds built by Resolver::resolve_name", len(kinds), 3)
     fn = F.fn("ide::ty::infer::InferCtx::infer_expr_inner")
     d = FL.Defs(fn)
@@ -598,29 +614,37 @@ def qualified_value_kinds(F, res, rule="S6"):
 MD = "ide::def::hir_def::ModuleDefId"
 
 
-def _arm_kinds(F, fn_path, build_adt):
-    """ModuleDefId variants whose arm (in the match on a ModuleDefId inside fn_path) builds a `build_adt` value"""
-    fn = F.fn(fn_path)
-    d = FL.Defs(fn)
+def _arm_map(F, fn_path, build_adt):
+    """ModuleDefId variant -> variants of `build_adt` built in its arm of the match on a ModuleDefId inside fn_path (or in a
+    helper of the resolver module it delegates to)"""
     dm = F.discr_map(MD)
-    out = set()
-    for b in sorted(fn.reachable()):
-        t = fn.term(b)
-        if t["k"] != "switch":
+    out = {}
+    for p_ in F.with_helpers(fn_path, depth=1):
+        if p_ != fn_path and "{closure" not in p_ and not p_.startswith("ide::def::resolver::"):
             continue
-        l = op_local(t["op"])
-        o = d.origin(l) if l is not None else {}
-        if not (o.get("k") == "rv" and o["rv"]["k"] == "discr" and o["rv"]["of"] == MD):
-            continue
-        tg, reach = regions(fn, t, avoid=b)
-        common = set.intersection(*reach.values()) if len(reach) > 1 else set()
-        for v, x in tg.items():
-            for bb in reach[x] - common:
-                for s in fn.blocks[bb]["stmts"]:
-                    rv = s.get("rv")
-                    if rv and rv["k"] == "agg" and rv.get("adt") == build_adt and rv.get("variant") not in ("Local", "BuiltIn", "Module"):
-                        out.add(dm[v])
+        fn = F.fns[p_]
+        d = FL.Defs(fn)
+        for b in sorted(fn.reachable()):
+            t = fn.term(b)
+            if t["k"] != "switch":
+                continue
+            l = op_local(t["op"])
+            o = d.origin(l) if l is not None else {}
+            if not (o.get("k") == "rv" and o["rv"]["k"] == "discr" and o["rv"]["of"] == MD):
+                continue
+            tg, reach = regions(fn, t, avoid=b)
+            common = set.intersection(*reach.values()) if len(reach) > 1 else set()
+            for v, x in tg.items():
+                for bb in reach[x] - common:
+                    for s in fn.blocks[bb]["stmts"]:
+                        rv = s.get("rv")
+                        if rv and rv["k"] == "agg" and rv.get("adt") == build_adt and rv.get("variant") not in ("Local", "BuiltIn", "Module"):
+                            out.setdefault(dm[v], set()).add(rv["variant"])
     return out
+
+
+def _arm_kinds(F, fn_path, build_adt):
+    return set(_arm_map(F, fn_path, build_adt))
 
 
 def namespaces(F, res):
